@@ -7,7 +7,10 @@ package pebbledb
 // compared with the reference model of acknowledged (+ optionally the in-flight) operations.
 
 import (
+	"encoding/json"
 	"fmt"
+	"os"
+	"path/filepath"
 	"sort"
 	"strings"
 	"testing"
@@ -62,6 +65,9 @@ type c07Call struct {
 	begin, end int
 	before     *refModel
 	after      *refModel
+	// a bulk import applies its input in chunks, each one a mutation of its own: the states after
+	// 1, 2, ... whole chunks are legitimate states to recover to while the import is in flight
+	partial []*refModel
 }
 
 func c07RunHistory(r *vh.Report, sp *storeProbes, name string, ops []storeOp, preload int, scratch string, torn bool) {
@@ -98,6 +104,27 @@ func c07RunHistory(r *vh.Report, sp *storeProbes, name string, ops []storeOp, pr
 				r.Fail("SetMetadata: %v", err)
 				return
 			}
+		} else if op.Kind == "migrate" {
+			td, terr := os.MkdirTemp("", "c07-migrate-")
+			if terr != nil {
+				r.Fail("temp dir: %v", terr)
+				return
+			}
+			data, _ := json.Marshal(detection.SignatureDatabase{Version: "1.0", Signatures: op.Sigs})
+			in := filepath.Join(td, "in.json")
+			os.WriteFile(in, data, 0o644)
+			n, merr := s.MigrateFromJSON(in)
+			os.RemoveAll(td)
+			if merr != nil || n != len(op.Sigs) {
+				r.Fail("MigrateFromJSON of %d signatures: n=%d err=%v", len(op.Sigs), n, merr)
+				return
+			}
+			for i, sg := range op.Sigs {
+				m.sigs[sg.ID] = cloneSig(sg)
+				if (i+1)%1000 == 0 && i+1 < len(op.Sigs) {
+					c.partial = append(c.partial, m.clone())
+				}
+			}
 		} else if msg := applyStoreOp(&s, dir, m, op); msg != "" {
 			// an API outcome the model does not expect is C06's business; stop this history
 			r.Note("history %s: %s (not a crash finding)", name, msg)
@@ -123,7 +150,19 @@ func c07RunHistory(r *vh.Report, sp *storeProbes, name string, ops []storeOp, pr
 			return
 		}
 		if preload > 0 && !vh.Mine(k) {
-			continue // bulk histories are sharded by crash point
+			// bulk histories are sharded by crash point — except the points at which a call has
+			// just returned (and the end of the history): what is acknowledged there must survive,
+			// and every shard checks them on its OWN log, because background write-back of
+			// unsynced data can make the logs of two runs differ in length
+			boundary := k == len(log)
+			for i := range calls {
+				if k == calls[i].end {
+					boundary = true
+				}
+			}
+			if !boundary {
+				continue
+			}
 		}
 		var inflight *c07Call
 		acked := final
@@ -202,8 +241,18 @@ func c07RunHistory(r *vh.Report, sp *storeProbes, name string, ops []storeOp, pr
 					recovered["before:"+infl]++
 				} else if inflight != nil {
 					b2 := append(battery(rs, inflight.after, sp, idPool, ""), indexConsistency(rs)...)
+					okPartial := false
+					if len(b2) != 0 {
+						for _, pm := range inflight.partial {
+							if len(append(battery(rs, pm, sp, idPool, ""), indexConsistency(rs)...)) == 0 {
+								okPartial = true
+							}
+						}
+					}
 					if len(b2) == 0 {
 						recovered["after:"+infl]++
+					} else if okPartial {
+						recovered["whole-chunks-of:"+infl]++
 					} else {
 						verdict = fmt.Sprintf("in-flight %s: reopened store is neither the state before it:\n%s\nnor the state after it:\n%s", infl, strings.Join(b1, "\n"), strings.Join(b2, "\n"))
 					}
@@ -314,6 +363,20 @@ func TestVerifC07Bulk(t *testing.T) {
 			big = append(big, c06Sig(sp, fmt.Sprintf("N%05d", i), i%2, i%3, i%2))
 		}
 		c07RunHistory(r, sp, "preload1>AddBatch(1500 new)", []storeOp{{Kind: "batch", Sigs: big, Name: "AddBatch(1500 new)"}}, 1, "", false)
+		r.Count("histories", 1)
+	}
+	// a bulk import (MigrateFromJSON) whose size is below, exactly at, and above a multiple of its
+	// chunk size (1000): once it has returned, every signature of the file survives any crash
+	for _, n := range []int{1000, 700, 2000, 1500} {
+		if n >= 1500 && !vh.Thorough() {
+			continue
+		}
+		var big []detection.Signature
+		for i := 0; i < n; i++ {
+			big = append(big, c06Sig(sp, fmt.Sprintf("M%05d", i), i%2, i%3, i%2))
+		}
+		nm := fmt.Sprintf("MigrateFromJSON(%d new)", n)
+		c07RunHistory(r, sp, "preload1>"+nm, []storeOp{{Kind: "migrate", Sigs: big, Name: nm}}, 1, "", false)
 		r.Count("histories", 1)
 	}
 	// record counts that are exact multiples of the rebuild's chunk size (1000): the last chunk
